@@ -1,6 +1,7 @@
 import warnings
 import string
 import copy
+import itertools
 import numpy as np
 from dimarray.compat.pycompat import zip
 from dimarray.tools import is_DimArray, is_array1d_equiv, format_doc, isscalar
@@ -440,10 +441,13 @@ class MultiAxis(Axis):
         if len(self.axes) == 1:
             return self.axes[0].values
 
-        aval = _flatten(*[ax.values for ax in self.axes])
-        val = np.empty(aval.shape[0], dtype=object)
-        val[:] = list(zip(*aval.T.tolist())) # pass a list of tuples
-        return val 
+        # all combinations of the member axes' labels, in row-major order, kept as they are (no intermediate
+        # homogeneous array: it would cast int and str labels, or int and float labels, to a common type)
+        combinations = list(itertools.product(*[ax.values.tolist() for ax in self.axes]))
+        val = np.empty(len(combinations), dtype=object)
+        for i, labels in enumerate(combinations):
+            val[i] = labels
+        return val
 
     @property
     def size(self): 
